@@ -382,6 +382,15 @@ func (v *Verifier) solveScript(fx *FnCtx, sc *Script, n int, filter func(string)
 	nOb := len(obIdx)
 	out, ms := runSolver(primary, text, time.Duration(v.timeout*(nOb+1)+5)*time.Second)
 	v.stat(primary.name, ms)
+	if k := strings.Index(out, "WARNING:"); k >= 0 {
+		e := out[k:]
+		if j := strings.Index(e, "\n"); j >= 0 {
+			e = e[:j]
+		}
+		v.mu.Lock()
+		fx.errors = append(fx.errors, "solver warning in "+sc.Trace+": "+e)
+		v.mu.Unlock()
+	}
 	ans := parseAnswers(out)
 	per := ms / float64(max(nOb, 1))
 	for _, i := range obIdx {
